@@ -190,8 +190,12 @@ Definition q_normalize (q : quat) : quat :=
   let len := det_sqrt (pl (pl (pl (m x x) (m y y)) (m z z)) (m w w)) in
   if p_le P len EPSILON then q_identity
   else let inv := p_div P ONE len in (m x inv, m y inv, m z inv, m w inv).
-Definition q_from_axis_angle (axis : vec3) (angle : N) : quat :=
-  let len_sq := v_dot axis axis in
+(* f32::max (maxNum): the other operand when one is NaN *)
+Definition fmax (a b : N) : N :=
+  if is_nan a then b else if is_nan b then a else if p_lt P a b then b else a.
+
+(* from_axis_angle after the squared length has been measured (this part is unchanged by the overflow repair) *)
+Definition q_axis_tail (axis : vec3) (len_sq angle : N) : quat :=
   if p_le P len_sq (p_mul P EPSILON EPSILON) then q_identity
   else
     let len := det_sqrt len_sq in
@@ -200,6 +204,25 @@ Definition q_from_axis_angle (axis : vec3) (angle : N) : quat :=
     let '(sin_half, cos_half) := sin_cos half in
     let '(sx, sy, sz) := v_scale norm_axis sin_half in
     (sx, sy, sz, cos_half).
+
+(* quat.rs BEFORE the overflow repair; kept only as the regression reference for the old finding *)
+Definition q_from_axis_angle_v0 (axis : vec3) (angle : N) : quat :=
+  q_axis_tail axis (v_dot axis axis) angle.
+
+(* `if len_sq.is_infinite() { m = max |component|; if m.is_finite() { axis = axis / m; len_sq = |axis|^2 } }` *)
+Definition q_rescale (axis : vec3) : vec3 * N :=
+  let len_sq := v_dot axis axis in
+  if is_inf len_sq then
+    let '(x, y, z) := axis in
+    let m := fmax (fmax (fabs x) (fabs y)) (fabs z) in
+    if is_finite m then
+      let a := (p_div P x m, p_div P y m, p_div P z m) in (a, v_dot a a)
+    else (axis, len_sq)
+  else (axis, len_sq).
+
+(* quat.rs: from_axis_angle *)
+Definition q_from_axis_angle (axis : vec3) (angle : N) : quat :=
+  let '(a, len_sq) := q_rescale axis in q_axis_tail a len_sq angle.
 
 (* ---- mat4.rs: column-major list of 16 *)
 Definition q_to_mat4 (q0 : quat) : list N :=
